@@ -56,7 +56,7 @@ def c16(ctx):
     lines = open(out).readlines()
     for rounds in range(12):
         cfg = os.path.join(wd, "trace%d.cfg" % rounds)
-        tlc.write_cfg(cfg, spec="TSpec", constants={"Dev": tla_set(sorted(known))}, constraint="TrackMax",
+        tlc.write_cfg(cfg, spec="TSpec", constants={"Dev": tla_set(sorted(known)), "Judge": '"both"'}, constraint="TrackMax",
                       postcondition="TraceAccepted")
         vd = os.path.join(wd, "v%d" % rounds)
         os.makedirs(vd)
@@ -125,3 +125,75 @@ def design_model(ctx):
                                   invariants=["NoLostCommittedUpdate", "CrashOldOrNew", "DestroyedStaysDestroyed"],
                                   timeout=1200)
     return dict(states=res.distinct, transitions=res.generated)
+
+
+# ------------------------------------------------------------------------------------------------ failing file operations
+FAULT_DEVS = {"OkButNotStored", "FaultNotAtomic"}
+FAULT_QUICK = ["SetAttrPublic", "SetAttrPrivate", "CreateObjectPublic", "DestroyObject", "CopyObject"]
+FAULT_ALL = FAULT_QUICK + ["CreateObjectPrivate", "SetAttrShrink", "GenerateKey", "InitPIN", "SetPINUser"]
+
+
+def fault_part(ctx, judge):
+    """The fault clauses of C05 (judge "ok": a call that returned CKR_OK has persisted its effect) and C09 (judge "err": a
+    call that returned an error changed nothing): every file operation of every listed writing call is made to fail once
+    (the shim's fault mode; a failed flush loses the buffered data), the call goes on, a fresh process looks at the token.
+    Returns statistics; reports violations / known findings on ctx."""
+    lib = build.libpath(build.build("ossl"))
+    shim = os.path.join(ROOT, "build", "fsshim.so")
+    if not os.path.exists(shim):
+        raise Broken("build/fsshim.so is missing: run bin/setup.sh")
+    scen = FAULT_QUICK if ctx.tier == "quick" else FAULT_ALL
+    known = {e["deviation"]: e for e in active_known(ctx.known) if e.get("deviation") in FAULT_DEVS}
+    wd = ctx.sub("fault")
+    sfile = os.path.join(wd, "sc.json")
+    json.dump(scen, open(sfile, "w"))
+    out = os.path.join(wd, "out.ndjson")
+    r = subprocess.run([sys.executable, "-m", "vf.drv_crash", lib, sfile, out, os.path.join(wd, "w"), str(ctx.seed), "fault",
+                        shim, "15"], cwd=ROOT, env=dict(os.environ, PYTHONPATH=ROOT), stdout=subprocess.PIPE,
+                       stderr=subprocess.PIPE, timeout=3000)
+    if r.returncode != 0 or not os.path.exists(out):
+        raise Broken("fault driver failed: " + r.stderr.decode()[-800:])
+    events = [json.loads(l) for l in open(out)]
+    cur, devs_used, rejected = out, {}, []
+    for rounds in range(12):
+        cfg = os.path.join(wd, "trace%d.cfg" % rounds)
+        tlc.write_cfg(cfg, spec="TSpec", constants={"Dev": tla_set(sorted(known)), "Judge": '"%s"' % judge},
+                      constraint="TrackMax", postcondition="TraceAccepted")
+        vd = os.path.join(wd, "v%d" % rounds)
+        os.makedirs(vd)
+        nev = sum(1 for _ in open(cur))
+        try:
+            res = tlc.validate_trace("Trace_Crash", cfg, cur, vd, nev, xmx="6g", env={"JAVA_TOOL_OPTIONS": "-Xss256m"})
+        except tlc.TLCBroken as e:
+            raise Broken(str(e))
+        for m in re.finditer(r'<<"DEV", "(\w+)", "(\w+)", (\d+)>>', res.output):
+            devs_used.setdefault(m.group(1), set()).add((m.group(2), int(m.group(3))))
+        if res.accepted:
+            break
+        cl = open(cur).readlines()
+        rejected.append(json.loads(cl[res.matched]))
+        nxt = os.path.join(wd, "rest%d.ndjson" % rounds)
+        with open(nxt, "w") as f:
+            f.writelines(cl[:res.matched] + cl[res.matched + 1:])
+        cur = nxt
+    for dev, uses in sorted(devs_used.items()):
+        e = known[dev]
+        ctx.known_finding(e["id"], "%s [%d fault points in %s]" % (e["scope"], len(uses), ", ".join(sorted(set(s for s, k in uses)))))
+    for bad in rejected[:5]:
+        d = ctx.new_replay_dir("fault")
+        log = [e for e in events if e["e"] == "Log" and e["scenario"] == bad.get("scenario")]
+        with open(os.path.join(d, "trace.ndjson"), "w") as f:
+            for e in log + [bad]:
+                f.write(json.dumps(e) + "\n")
+        with open(os.path.join(d, "info.json"), "w") as f:
+            json.dump(dict(property=ctx.prop, kind="fault", scenario=bad.get("scenario"), k=bad.get("k"), judge=judge,
+                           dev=sorted(known)), f)
+        ops = log[0]["ops"] if log else []
+        k = bad.get("k", 0)
+        ctx.violation("operation %d (%s) of %s made to fail: the call returned %s and a fresh process sees %s" % (
+            k, ":".join(ops[k - 1][:2]) if 0 < k <= len(ops) else "?", bad.get("scenario"), bad.get("rv"),
+            "neither the old nor the new state" if bad.get("rv") != "OK" else "not the new state"), d)
+    faults = [e for e in events if e["e"] == "Fault" and e.get("hit")]
+    return dict(fault_points=len(faults), scenarios=scen, returned_ok=sum(1 for e in faults if e["rv"] == "OK"),
+                returned_error=sum(1 for e in faults if e["rv"] != "OK"),
+                deviations_used={k: len(v) for k, v in devs_used.items()})
